@@ -22,6 +22,7 @@ def _knobs(rng, *, conc=True):
         "pct_depth": rng.choice([0, 0, 0, 0, 0, 1, 2, 3]) if conc else 0,
         "locale": rng.choice([None, None, None, None, None, "de_DE"]),
         "mtime_granularity": rng.choice([None, None, 1.0, 2.0]),
+        "clock_slow": rng.random() < 0.4,
     }
 
 
